@@ -52,10 +52,15 @@ type Ctx struct {
 	impl   *bufio.Writer
 	Count  int
 	Kinds  map[string]int // distribution statistics
+	emitHook func(op, obs string) // when set, Emit hands the case to the hook instead of writing it
 }
 
 // Emit records one case: the op line for the model and what the implementation did.
 func (c *Ctx) Emit(op, obs string) {
+	if c.emitHook != nil {
+		c.emitHook(op, obs)
+		return
+	}
 	if strings.ContainsAny(op, "\n\r") || strings.ContainsAny(obs, "\n\r") {
 		panic("newline in line protocol")
 	}
